@@ -170,6 +170,32 @@ def check(c):
              isinstance(par, ast.For) and any(
                  s is c.idx.stmt_of(n) for s in par.orelse), c.where(n, gl),
              '')
+    # nothing leaves the function without going through that filter: every
+    # return is the empty list or the filtered list (a shortcut that returns
+    # raw glob matches -- even a single one -- would hand a path beneath a
+    # foreign symlink to the deleter)
+    rets = [r for r in c.idx.walk(gl.node) if isinstance(r, ast.Return)]
+    c.floor('C38.glob', 'returns of glob_in_run_dir', len(rets), 1)
+    filtered = {norm(n.func.value) for n in apps}
+    for r in rets:
+        v = r.value
+        ok = v is not None and (norm(v) == '[]' or norm(v) in filtered)
+        c.ob('C38.glob', c.key(r, gl) + ' returns only filtered paths', ok,
+             c.where(r, gl), '' if ok else f'returns `{norm(v)}`: glob '
+             'matches that did not pass the non-standard-symlink exclusion '
+             'reach remove_dir_or_file')
+    for name in filtered:
+        other = [n for n in c.idx.walk(gl.node) if isinstance(
+            n, (ast.Assign, ast.AnnAssign, ast.AugAssign)) and norm(
+            n.targets[0] if isinstance(n, ast.Assign) else n.target) == name
+            and norm(n.value) != '[]']
+        adds = [n for n in c.idx.walk(gl.node) if isinstance(n, ast.Call)
+                and isinstance(n.func, ast.Attribute) and norm(
+                    n.func.value) == name and n.func.attr in (
+                    'append', 'extend', 'insert') and n not in apps]
+        c.ob('C38.glob', f'{gl.fq} :: {name} is filled only by the filtered '
+             'append', not other and not adds, c.where(gl.node, gl),
+             '; '.join(norm(n)[:60] for n in other + adds))
     # ---- --rm sanitiser
     ic = c.func(CL, 'init_clean')
     rm = [n for n in c.idx.walk(ic.node) if isinstance(n, ast.Assign)
